@@ -153,6 +153,9 @@ pub fn op_kinds<F: Family>(p: &Program<F>) -> Vec<String> {
                 GOp::IsFinished(_) => {
                     s.insert("IsFinished".into());
                 }
+                GOp::PollJoin(_) => {
+                    s.insert("PollJoin".into());
+                }
             }
         }
     }
